@@ -1,3 +1,5 @@
+//go:build !verif
+
 /*
  Licensed to the Apache Software Foundation (ASF) under one
  or more contributor license agreements.  See the NOTICE file
